@@ -44,6 +44,8 @@ ENGINES = [
      "kind_free_text": "differential: Go transformation functions vs Lean models + monitor (flag soundness, purity, aliasing)"},
     {"name": "tfchain", "path": "go/cmd/corr/tfchain.go", "serves_properties": ["C14"],
      "kind_free_text": "differential: transformation lists through a real rule (multiMatch on/off) vs Lean model + monitor"},
+    {"name": "capseq", "path": "go/cmd/corr/capseq.go", "serves_properties": ["C09"],
+     "kind_free_text": "monitor: three capturing rules of one phase (two @rx with groups, one that never matches); TX.0-9 afterwards vs the expectation computed with Go's regexp"},
     {"name": "tfwrap", "path": "go/cmd/corr/tfwrap.go", "serves_properties": ["C13"],
      "kind_free_text": "monitor: 65 355 transformation chains registered by other WAFs between two families of chains; every rule of a WAF using both families must see its own list's value"},
     {"name": "op", "path": "go/cmd/corr/op.go", "serves_properties": ["C15"],
